@@ -1,1 +1,6 @@
-
+//! Shared machinery of the wallet-level checks (C01, C02, C05, C06, C08, C15b).
+pub mod hist;
+pub mod ledger;
+pub mod sim;
+pub mod wallet;
+pub use vh_common;
